@@ -61,6 +61,10 @@ def cases(tier, seed):
                 continue
             for c in cons:
                 out.append(("run", shape, n, c))
+    # the(...) used as a sub-query inside another query keeps its own errors
+    for n in range(N + 1):
+        for outer in ("an", "set_of", "the_outer"):
+            out.append(("nested_the", n, outer))
     # constructions that must be rejected / accepted
     for k in range(-3, 3):
         for kind in ("exactly", "atleast", "atmost"):
@@ -200,10 +204,52 @@ def observed_trace(shape, n, c):
     return trace, got, expected
 
 
+def run_nested_the(case, res):
+    from krrood.entity_query_language import failures as F
+    from krrood.entity_query_language.entity import entity, set_of, let
+    from krrood.entity_query_language.quantify_entity import an, the
+    _, n, outer = case
+    inner_dom = [Obj(-1, False)] + [Obj(i, True) for i in range(n)] + [Obj(-2, False)]
+    outer_dom = [Obj(i) for i in range(3)] + [Obj(0)]
+    y = let(Obj, inner_dom, name="y")
+    x = let(Obj, outer_dom, name="x")
+    sub = the(entity(y, y.good == True))
+    res.transitions = 1
+    res.states = [case]
+    try:
+        if outer == "an":
+            got = [id(r) for r in an(entity(x, x.k == sub.k)).evaluate()]
+        elif outer == "set_of":
+            got = [id(r[x]) for r in an(set_of([x], x.k == sub.k)).evaluate()]
+        else:
+            got = [id(the(entity(x, x.k == sub.k, x is not None)).evaluate())]
+        outcome = ("rows", tuple(got))
+    except Exception as e:
+        outcome = ("raise", type(e).__name__)
+    if n == 0:
+        exp = ("raise", "NoSolutionFound")
+    elif n > 1:
+        exp = ("raise", "MultipleSolutionFound")
+    else:
+        match = [id(o) for o in outer_dom if o.k == 0]
+        exp = ("rows", tuple(match)) if outer != "the_outer" else ("raise", "MultipleSolutionFound")
+    res.outcome_key = ("nested_the",) + outcome[:1] + ((outcome[1],) if outcome[0] == "raise" else ())
+    res.nontrivial_key = case
+    res.features = ["shape:nested_the", "end:nested:" + (outcome[1] if outcome[0] == "raise" else "rows")]
+    ok = outcome == exp if outcome[0] == "raise" or exp[0] == "raise" else sorted(outcome[1]) == sorted(exp[1])
+    if not ok:
+        res.failures.append(Failure("nested-the", f"{case}: the(...) with {n} solutions nested in {outer}: got "
+                                                  f"{outcome[0]} {outcome[1] if outcome[0] == 'raise' else len(outcome[1])}, expected {exp[0]} "
+                                                  f"{exp[1] if exp[0] == 'raise' else len(exp[1])}"))
+    return res
+
+
 def run_case(case):
     res = CaseResult(sample=list(case))
     if case[0] == "construct":
         return run_construct(case, res)
+    if case[0] == "nested_the":
+        return run_nested_the(case, res)
     _, shape, n, c = case
     lo, hi = bounds_of(c)
     try:
